@@ -21,7 +21,19 @@ type registryKey struct {
 }
 
 func (e *Engine) parseRegistryKey(v ssa.Value) registryKey {
+	return e.parseRegistryKeyCtx(v, nil)
+}
+
+func (e *Engine) parseRegistryKeyCtx(v ssa.Value, ctx []callCtx) registryKey {
 	v = strip(v)
+	// the key may be built by a package-local helper: expressionKey(table, expression)
+	if hc, ok := v.(*ssa.Call); ok && len(ctx) < 3 {
+		if g := hc.Call.StaticCallee(); g != nil && g.Blocks != nil && e.fnRole(g) == "interp" {
+			if rets := returnsOf(g); len(rets) == 1 && len(retVals(rets[0])) == 1 {
+				return e.parseRegistryKeyCtx(retVals(rets[0])[0], append(append([]callCtx{}, ctx...), callCtx{hc, g}))
+			}
+		}
+	}
 	b, ok := v.(*ssa.BinOp)
 	if !ok || b.Op != token.ADD {
 		return registryKey{why: "key is not a concatenation"}
@@ -38,7 +50,7 @@ func (e *Engine) parseRegistryKey(v ssa.Value) registryKey {
 	if !ok {
 		return registryKey{why: "separator is not a constant"}
 	}
-	return registryKey{ok: true, sep: sep, norm: c.Call.StaticCallee(), table: strings.Join(e.origins(l.X), "|"), expr: strings.Join(e.origins(c.Call.Args[0]), "|")}
+	return registryKey{ok: true, sep: sep, norm: c.Call.StaticCallee(), table: strings.Join(e.originsCtx(l.X, ctx), "|"), expr: strings.Join(e.originsCtx(c.Call.Args[0], ctx), "|")}
 }
 
 // kindAt: the ExpressionType constant that governs block b (switch on the kind parameter), or "" if unconditional / "default".
